@@ -236,6 +236,9 @@ func resetLayers(tier string) []resetLayer {
 	}
 	return []resetLayer{
 		saWide, saMultifill, // slowest shards first
+		// priors long enough to fill and wrap every search structure (hash slots overwritten, bucket ring wrapped)
+		// on the full set of search parameters, everything in one fill so that stale entries stay inside the window
+		{Name: "hash-prior-long", Kinds: HashKinds, Geos: wideGeos[:2], Level: 1, Prior: Union(FewLong(12), BinaryRange(5, 6)), Next: BinaryRange(4, 7), Modes: []int{0}, ResetKinds: []int{0, 2}, Bound: 0},
 		{Name: "hash-wide", Kinds: HashKinds, Geos: wideGeos, Level: 2, Prior: Binary(3), Next: BinaryRange(1, 7), Modes: []int{0}, ResetKinds: []int{0, 2}, Bound: 0},
 		{Name: "hash", Kinds: HashKinds, BufSizes: []int{3, 8}, Level: 0, Prior: Binary(3), Next: BinaryRange(1, 5), Modes: []int{0, 2}, ResetKinds: []int{0, 3}, Bound: 0, Filter: tinyTables},
 		{Name: "hash-b1", Kinds: HashKinds, BufSizes: []int{3}, Level: 2, Prior: Binary(3), Next: BinaryRange(1, 4), Modes: []int{0}, Bound: 1},
@@ -456,6 +459,18 @@ func parserThread(kind string, cfg lz.ParserConfig, input []byte, withReset bool
 				n, err = p.Parse(&blk, 0)
 				add(opParse, n, err, &blk)
 			}
+			if !withReset {
+				// Reset(nil) and a second, short stream on the same instance: whatever Reset gives up or keeps
+				// must not reach another instance
+				err := p.Reset(nil)
+				add(opReset, 0, err, nil)
+				yield()
+				n, err := p.Write(input[:min(len(input), 3)])
+				add(opWrite, n, err, nil)
+				yield()
+				n, err = p.Parse(&blk, 0)
+				add(opParse, n, err, &blk)
+			}
 			if withReset {
 				err := p.Reset(input[:min(len(input), p.BufferConfig().BufferSize)])
 				add(opReset, 0, err, nil)
@@ -596,6 +611,9 @@ func concurrentShards(tier string) []engine.Shard {
 			}
 			k1, k2 := k1, k2
 			shards = append(shards, engine.Shard{Name: "C13/concurrent/" + k1 + "+" + k2, Run: func(st *engine.Stats, col *engine.Collector) {
+				if delegateToChild("C13", "C13/concurrent/"+k1+"+"+k2, tier, st, col) {
+					return
+				}
 				runInterleavings(k1+"+"+k2, []threadScript{
 					parserThread(k1, mk(k1), inputs[0], false),
 					parserThread(k2, mk(k2), inputs[1], true),
@@ -604,6 +622,9 @@ func concurrentShards(tier string) []engine.Shard {
 		}
 		k1 := k1
 		shards = append(shards, engine.Shard{Name: "C13/concurrent/" + k1 + "+Decoder", Run: func(st *engine.Stats, col *engine.Collector) {
+			if delegateToChild("C13", "C13/concurrent/"+k1+"+Decoder", tier, st, col) {
+				return
+			}
 			runInterleavings(k1+"+Decoder", []threadScript{
 				parserThread(k1, mk(k1), inputs[2], false),
 				decoderThread(blocks, 2, 4),
@@ -617,6 +638,9 @@ func concurrentShards(tier string) []engine.Shard {
 	for _, t := range three {
 		t := t
 		shards = append(shards, engine.Shard{Name: fmt.Sprintf("C13/concurrent/%v", t), Run: func(st *engine.Stats, col *engine.Collector) {
+			if delegateToChild("C13", fmt.Sprintf("C13/concurrent/%v", t), tier, st, col) {
+				return
+			}
 			short := []byte("abab")
 			runInterleavings(fmt.Sprint(t), []threadScript{
 				shortThread(t[0], mk(t[0]), short),
